@@ -235,6 +235,18 @@ def print_assumptions(props_rel, tag):
     return res, out
 
 
+def coqchk(props_rel, timeout=1500):
+    mod = 'Verif.' + props_rel[:-2].replace('/', '.')
+    cmd = ['timeout', str(timeout), 'coqchk', '-silent', '-o', '-Q', COQ, 'Verif', mod]
+    t0 = time.time()
+    p = subprocess.run(cmd, stdout=subprocess.PIPE, stderr=subprocess.STDOUT, text=True)
+    out = p.stdout
+    m = re.search(r'\* Axioms:(.*?)(?:\n\s*\n|\* Constants|\Z)', out, re.S)
+    axioms = [a.strip() for a in (m.group(1).strip().splitlines() if m else []) if a.strip() and '<none>' not in a]
+    return {'ok': p.returncode == 0, 'cmd': ' '.join(cmd), 'axioms_in_loaded_libraries': axioms,
+            'tail': out[-1500:], 'wall_s': round(time.time() - t0, 1)}
+
+
 # ------------------------------------------------------------------------------------------------
 # evaluating the model on cases:  one stand-alone .v per shard, vm_compute, results printed by us
 # ------------------------------------------------------------------------------------------------
